@@ -16,6 +16,7 @@ func init() {
 	vRegister("VerifHarness_C12_TagOrder", VerifHarness_C12_TagOrder)
 	vRegister("VerifHarness_C12_LineLocality", VerifHarness_C12_LineLocality)
 	vRegister("VerifHarness_C12_EscapePairs", VerifHarness_C12_EscapePairs)
+	vRegister("VerifHarness_C12_BinaryRoundTrip", VerifHarness_C12_BinaryRoundTrip)
 }
 
 var vC12Precisions = []string{"n", "u", "ms", "s", "m", "h"}
@@ -190,6 +191,40 @@ func VerifHarness_C12_TextRoundTrip() {
 	vAssert(p.time.Equal(q.time), "C12.roundtrip-time")
 	vObserve("key", p.key)
 	vReach("C12.roundtrip.end")
+}
+
+// The binary point form used between nodes and in hinted handoff reproduces every accepted point.
+func VerifHarness_C12_BinaryRoundTrip() {
+	maxN := 6
+	if vThorough() {
+		maxN = 8
+	}
+	n := vLen("len", 3, maxN)
+	buf := vBytes("buf", n)
+	for i := 0; i < n; i++ {
+		vAssume(buf[i] != '\n')
+	}
+	prec := vC12Precisions[vChoice("precision", 2)]
+	pts, err, panicked := vC12Parse(buf, prec)
+	vAssume(!panicked && err == nil && len(pts) == 1)
+	p := pts[0].(*point)
+	b, merr := p.MarshalBinary()
+	vAssert(merr == nil, "C12.binary-marshal-ok")
+	if merr != nil {
+		return
+	}
+	q0, uerr := NewPointFromBytes(b)
+	vAssert(uerr == nil && q0 != nil, "C12.binary-unmarshal-ok")
+	if uerr != nil || q0 == nil {
+		return
+	}
+	q := q0.(*point)
+	vAssert(bytes.Equal(p.key, q.key), "C12.binary-roundtrip-key")
+	vAssert(bytes.Equal(p.fields, q.fields), "C12.binary-roundtrip-fields")
+	vAssert(p.time.Equal(q.time), "C12.binary-roundtrip-time")
+	vAssert(p.HashID() == q.HashID(), "C12.binary-roundtrip-hash")
+	vObserve("key", q.key)
+	vReach("C12.binary.end")
 }
 
 // The canonical series key and its shard hash do not depend on the order tags were given in.
